@@ -864,6 +864,29 @@ example : ∃ s', stepOther ⟨#[], #[], fun _ => none, #[]⟩ { stack := [3#256
   · exact absurd h (by decide)
   · exact ⟨s', h, by rw [hm 3]; decide⟩
 
+/-- **MLOAD** (Yellow Paper: μ'_s[0] = μ_m[μ_s[0] … μ_s[0]+31], big-endian, memory read as zero beyond its
+    size): with `idx :: rest` on the stack it fails with "illegal memory access" exactly when idx + 32 exceeds
+    u32::MAX; otherwise it replaces `idx` by the word made of the 32 bytes at idx … idx+31 of the *old* memory
+    (zero where the old memory ends), advances pc, and changes no byte of the memory (it only grows). -/
+theorem step_mload (env : Env) (s : St) (idx : W) (rest : List W) (hst : s.stack = idx :: rest) :
+    (idx.toNat + 32 > u32Max ∧ stepOther env s 0x51 = .error .illegalMemoryAccess) ∨
+    (idx.toNat + 32 ≤ u32Max ∧ ∃ s' : St, stepOther env s 0x51 = .ok s' ∧
+      s'.stack = bytesToWord ((List.range 32).map (fun k => s.memory[idx.toNat + k]!)) :: rest ∧
+      s'.pc = s.pc + 1 ∧ s'.storage = s.storage ∧ s'.transient = s.transient ∧
+      ∀ j : Nat, s'.memory[j]! = s.memory[j]!) := by
+  rw [stepOther_mload, hst]
+  simp only []
+  rcases memRegion32 s.memory idx with ⟨h, e⟩ | ⟨h, e⟩
+  · left; rw [e]; exact ⟨h, rfl⟩
+  · right; rw [e]
+    refine ⟨h, _, rfl, ?_, rfl, rfl, rfl, fun j => memGrow_get _ _ _⟩
+    simp only []
+    rw [mslice_eq _ _ _ (memGrow_size_ge _ _)]
+    congr 2
+    apply List.map_congr_left
+    intro k _
+    exact memGrow_get _ _ _
+
 /-- CALLDATACOPY / CODECOPY memory effect (`copy_to_memory` with zero fill): when the destination region is
     admissible (size ≠ 0, offset + size ≤ u32::MAX), byte i of the region becomes data[dataOff + i], or zero
     where dataOff + i is beyond the data — for any 256-bit dataOff. -/
